@@ -488,6 +488,29 @@ def micro_programs():
             ("neither-creator-nor-lit", a + cr + ["!="] + a + l0 + ["!=", "&&", "!"]),
         ):
             emit(f"addrmix/{fld}/{combo}", lines)
+    # an operand of && / || that was pushed in an EARLIER block (unknown to the block-local reconstruction), combined with a
+    # comparison whose false / true set is informative, consumed on either outcome
+    cmps = {"RekeyTo": (["txn RekeyTo", "global ZeroAddress"], ["==", "!="]), "Fee": (["txn Fee", "int 1000"], ["<=", ">"]),
+            "OnCompletion": (["txn OnCompletion", "int UpdateApplication"], ["==", "!="]), "GroupSize": (["global GroupSize", "int 16"], ["==", "!="])}
+    for fld, (operands, ops) in cmps.items():
+        for op in ops:
+            for conn in ("&&", "||"):
+                for unk in (["load 0"], ["int 0"], ["int 1"]):
+                    for order in ("unk-first", "cmp-first"):
+                        first = unk if order == "unk-first" else operands + [op]
+                        second = operands + [op] if order == "unk-first" else unk
+                        head = ["#pragma version 6"] + first + ["b join", "join:"] + second + [conn]
+                        for cons, tail in (("bnz-fall", ["bnz bad", "int 1", "return", "bad:", "err"]), ("bz-jump", ["bz good", "err", "good:", "int 1", "return"]),
+                                           ("not-assert", ["!", "assert", "int 1", "return"]), ("assert", ["assert", "int 1", "return"])):
+                            out.append((f"unkop/{fld}/{op}/{conn}/{unk[0].replace(' ', '')}/{order}/{cons}", "\n".join(head + tail)))
+    # a leaf block that asserts one check and RETURNS another computed condition
+    chk = {"RekeyTo": ["txn RekeyTo", "global ZeroAddress", "=="], "Fee": ["txn Fee", "int 1000", "<="], "CloseRemainderTo": ["txn CloseRemainderTo", "global ZeroAddress", "=="],
+           "OnCompletion": ["txn OnCompletion", "int UpdateApplication", "!="], "GroupSize": ["global GroupSize", "int 2", "=="], "unrelated": ["txn NumAppArgs", "int 1", "=="]}
+    for a_name, a in chk.items():
+        for b_name, b in chk.items():
+            if a_name != b_name and a_name != "unrelated":
+                out.append((f"retmix/{a_name}/{b_name}/same-block", "\n".join(["#pragma version 6"] + a + ["assert"] + b + ["return"])))
+                out.append((f"retmix/{a_name}/{b_name}/after-join", "\n".join(["#pragma version 6", "txn NumAppArgs", "bz leaf", "int 7", "pop", "leaf:"] + a + ["assert"] + b + ["return"])))
     return out
 
 
